@@ -51,11 +51,12 @@ func vkInject(ifi *Interface, st sysState, epoch time.Time) {
 		case *plugin.RDNSS:
 			p.Addrs = addrs
 		case *plugin.LLA:
+			// (through the real Prepare: what becomes of an address that the option cannot carry is its business)
+			var mac net.HardwareAddr
 			if len(st.MAC) > 0 {
-				p.Addr = net.HardwareAddr(slices.Clone(st.MAC))
-			} else {
-				p.Addr = nil
+				mac = net.HardwareAddr(slices.Clone(st.MAC))
 			}
+			_ = p.Prepare(&net.Interface{Index: 1, Name: ifi.Name, HardwareAddr: mac, MTU: 1500})
 		}
 	}
 }
@@ -158,6 +159,8 @@ func c01Prop(k *verifkit.Kit) func(c c01Case) error {
 		}
 		if len(c.State.MAC) == 0 {
 			classes = append(classes, "mac-absent")
+		} else if len(c.State.MAC) != 6 {
+			classes = append(classes, "mac-not-48-bit")
 		}
 		if c.Repeat > 1 {
 			classes = append(classes, "repeat>1")
